@@ -116,6 +116,8 @@ def nice_model(ctx, f, h, model):
         soft.append(h.now0 - e.birth <= horizon)
         soft.append(e.hits <= 50)
     if h.cfg.ttl is not None: soft.append(h.cfg.ttl <= 1000)
+    # natively an operation takes microseconds: prefer witnesses in which no time passes during the operation
+    for t in (ctx.sys_vars if A else ctx.now_vars)[1:]: soft.append(t == h.now0)
     soft2 = []
     if not A and not h.cfg.real:
         for i, e in enumerate(h.pre):
